@@ -182,15 +182,15 @@ def dispatch_cases(T):
             ps = [Par('o', mt, False)] + [Par(p_, sc) for p_ in params]
             args = ', '.join('*' + p_ for p_ in params)
             kfull = K('%s_%s_%s' % (cfg.name, full, sc.tag), ps, '*o = %s(%s);' % (full, args), cfg)
-            aliases = [fam, fam + hand, fam + depth] if fam != 'infinitePerspective' else [fam]
+            aliases = [fam, fam + hand, fam + depth] if fam != 'infinitePerspective' else [fam, fam + hand]      # the header declares infinitePerspectiveLH / RH (no NO / ZO half forms)
             for al in aliases:
                 kal = K('%s_%s_alias_%s' % (cfg.name, al, sc.tag), ps, '*o = %s(%s);' % (al, args), cfg)
                 cs.append(ident_case('%s == %s under %s <%s>' % (al, full, cname, T), kal, kfull, mt, 'dispatch'))
             # the half-suffixed forms whose explicit half differs from the configuration: the other half still comes from the configuration
-            if fam != 'infinitePerspective':
+            if True:
                 oh = 'LH' if hand == 'RH' else 'RH'
                 od = 'ZO' if depth == 'NO' else 'NO'
-                for al, tgt in ((fam + od, fam + hand + '_' + od), (fam + oh, fam + oh + '_' + depth)):
+                for al, tgt in (((fam + od, fam + hand + '_' + od), (fam + oh, fam + oh + '_' + depth)) if fam != 'infinitePerspective' else ((fam + oh, fam + oh + '_' + depth),)):
                     kal = K('%s_%s_alias_%s' % (cfg.name, al, sc.tag), ps, '*o = %s(%s);' % (al, args), cfg)
                     ktg = K('%s_%s_%s' % (cfg.name, tgt, sc.tag), ps, '*o = %s(%s);' % (tgt, args), cfg)
                     cs.append(ident_case('%s == %s under %s <%s>' % (al, tgt, cname, T), kal, ktg, mt, 'dispatch'))
@@ -207,12 +207,37 @@ def dispatch_cases(T):
     return cs
 
 
+def B_load(ctx, k):
+    from laneflow import build as B_
+    key = (k.cfg.name, k.name)
+    return B_.load_fn(ctx.index, *key) if key in ctx.index else None
+
+
+def undefined_glm_calls(fnj):
+    """callee names of calls to glm:: functions in the dumped kernel (after full inlining a call that survives is either kept opaque on purpose, a library function, or undefined)"""
+    out = []
+    if not fnj:
+        return out
+    for b in fnj.get('blocks', []):
+        for ins in b.get('insts', []):
+            c = ins.get('callee')
+            if ins.get('op') == 'call' and c and c.startswith('_ZN3glm') and 'infinitePerspective' in c:
+                out.append(c)
+    return out
+
+
 def ident_case(name, ka, kb, oty, rule):
     def judge(ctx):
         for k in (ka, kb):
             e = ctx.compile_error(k)
             if e:
                 return [R.ob(name, 'existence', R.REFUTED, 'cannot be instantiated: ' + e, kernel=k.source())]
+        # a function that the public header declares but the library never defines: the kernel keeps a call to a body-less glm:: function (link error for the user)
+        for k in (ka, kb):
+            fnj = B_load(ctx, k)
+            und = undefined_glm_calls(fnj)
+            if und:
+                return [R.ob(name, 'existence', R.REFUTED, 'the function is declared in the public header but never defined: the kernel keeps a call to %s (undefined reference at link time)' % und[0], kernel=k.source())]
         la, lb = L.out_lanes(ctx, ka, oty), L.out_lanes(ctx, kb, oty)
         ita = ctx.fn(ka)
         res = []
@@ -352,13 +377,78 @@ def equiv_cases(T):
     return cs
 
 
+def tweaked_pick_cases(T):
+    """tweakedInfinitePerspective(fovy, aspect, near, ep) == infinitePerspectiveRH_NO(fovy, aspect, near) + ep * E with E[2][2] = 1, E[3][2] = near (Lengyel's epsilon-shifted far plane);
+    the three-argument overload uses ep = epsilon<T>();  pickMatrix(center, delta, viewport) == translate((vp.zw - 2 (center - vp.xy)) / delta, 0) * scale(vp.zw / delta, 1), the identity
+    unless delta.x > 0 and delta.y > 0"""
+    from laneflow import spec as S
+    cs = []
+    sc, mt, v2, v4 = G.scalar(T), G.mat(4, 4, T), G.vec(2, T), G.vec(4, T)
+    w = sc.elem * 8
+    ps = [Par('o', mt, False)] + [Par(p_, sc) for p_ in 'yan']
+    kb = K('tw_base_%s' % sc.tag, ps, '*o = infinitePerspectiveRH_NO(*y, *a, *n);', DEF)
+    k4 = K('tw4_%s' % sc.tag, ps + [Par('e', sc)], '*o = tweakedInfinitePerspective(*y, *a, *n, *e);', DEF)
+    k3 = K('tw3_%s' % sc.tag, ps, '*o = tweakedInfinitePerspective(*y, *a, *n);', DEF)
+    name = 'tweakedInfinitePerspective<%s>' % T
+
+    def judge(ctx):
+        for k in (kb, k4, k3):
+            e = ctx.compile_error(k)
+            if e:
+                return [R.ob(name, 'existence', R.REFUTED, 'cannot be instantiated: ' + e, kernel=k.source())]
+        pc = P.PCtx()
+        b, t4, t3 = L.out_lanes(ctx, kb, mt), L.out_lanes(ctx, k4, mt), L.out_lanes(ctx, k3, mt)
+        ep, n = A('e', T), A('n', T)
+        import struct
+        epsc = tm.fconst(w, 2.0 ** -23 if w == 32 else 2.0 ** -52)
+        res = []
+        for lane in sorted(b):
+            shift = ep if lane == (2, 2) else (ep * n if lane == (3, 2) else Poly())
+            d = norm(pc.fpoly(t4[lane]) - pc.fpoly(b[lane]) - shift)
+            oid = '%s[%s]' % (name, lane)
+            res.append(R.ob(oid, 'tweaked', R.PROVED if d.is_zero() else (R.REFUTED if P.transparent(d) else R.UNDECIDED),
+                            'infinitePerspectiveRH_NO entry%s' % (' + ep' if lane == (2, 2) else ' + ep * near' if lane == (3, 2) else '') if d.is_zero() else 'differs from the infinite projection plus the epsilon shift by %s' % P.show_poly(d, limit=4),
+                            where=R.where_of(ctx.fn(k4), t4[lane]) if not d.is_zero() else None, kernel=k4.source()))
+            want3 = tm.substitute(t4[lane], {tm.inp('e', 0, w): epsc})
+            d3 = norm(pc.fpoly(t3[lane]) - pc.fpoly(want3))
+            res.append(R.ob(oid + '.default_epsilon', 'tweaked', R.PROVED if d3.is_zero() else (R.REFUTED if P.transparent(d3) else R.UNDECIDED),
+                            'the three-argument overload is the four-argument one at ep = epsilon<T>()' if d3.is_zero() else 'three-argument overload differs from ep = epsilon<T>() by %s' % P.show_poly(d3, limit=4), kernel=k3.source()))
+        return res
+    cs.append(R.Case(name, [kb, k4, k3], judge))
+    kp = K('pick_%s' % sc.tag, [Par('o', mt, False), Par('c', v2), Par('d', v2), Par('v', v4)], '*o = pickMatrix(*c, *d, *v);', DEF)
+    pname = 'pickMatrix<%s>' % T
+
+    def judge_p(ctx):
+        e = ctx.compile_error(kp)
+        if e:
+            return [R.ob(pname, 'existence', R.REFUTED, 'cannot be instantiated: ' + e, kernel=kp.source())]
+        lanes = L.out_lanes(ctx, kp, mt)
+        c, d, v = S.vecE('c', v2), S.vecE('d', v2), S.vecE('v', v4)
+        one, zero = S.const(w, 1.0), S.const(w, 0.0)
+        sx, sy = v[2] / d[0], v[3] / d[1]
+        tx = (v[2] - (c[0] - v[0]) * 2) / d[0]
+        ty = (v[3] - (c[1] - v[1]) * 2) / d[1]
+        M = {(0, 0): sx, (1, 1): sy, (2, 2): one, (3, 3): one, (3, 0): tx, (3, 1): ty}
+        res = []
+        pc = P.PCtx()
+        for lane in sorted(lanes):
+            val = M.get(lane, zero)
+            idv = one if lane[0] == lane[1] else zero
+            spec = S.sel(d[0].gt(0), S.sel(d[1].gt(0), val, idv), idv)
+            st, detail = S.compare(lanes[lane], spec.t, pc=pc, nan=False)
+            res.append(R.ob('%s[%s]' % (pname, lane), 'pick_matrix', st, detail, where=R.where_of(ctx.fn(kp), lanes[lane]) if st != R.PROVED else None, kernel=kp.source()))
+        return res
+    cs.append(R.Case(pname, [kp], judge_p))
+    return cs
+
+
 def half_angle(p):
     return p
 
 
 def cases(tier):
     cs = []
-    types = ['float', 'double'] if tier == 'thorough' else ['float']
+    types = ['float', 'double']          # both element types in every tier (the whole check takes a few seconds)
     for T in types:
         for fam in ('ortho', 'frustum', 'perspective', 'perspectiveFov', 'infinitePerspective'):
             for var in ('RH_NO', 'RH_ZO', 'LH_NO', 'LH_ZO'):
@@ -366,6 +456,7 @@ def cases(tier):
         cs += dispatch_cases(T)
         cs += project_cases(T)
         cs += equiv_cases(T)
+        cs += tweaked_pick_cases(T)
     cs += canaries()
     return cs
 
